@@ -514,3 +514,42 @@ Fixpoint history_meets (c : cfg) (p : producer) (T K V : tname) (ops : list op) 
 
 (* number of times the object's block reached free() over a history *)
 Definition frees (l : list step) : nat := count is_free_obj (events l).
+
+(* ------------------------------------------------------------------ storage layout: size(type) bytes are usable
+   Byte offsets inside the block that holds an object.  H = sizeof(struct Header), w = sizeof(var),
+   s = size(type).  The shapes of the C expressions are confirmed by the generator (the hdr_lay_ definitions). *)
+
+Definition hdr_layout_ok : bool :=
+  hdr_lay_alloc_by && hdr_lay_stack && hdr_lay_array && hdr_lay_list && hdr_lay_tree && hdr_lay_table.
+
+Definition round_up (w s : nat) : nat := ((s + w - 1) / w) * w.      (* Array_Size_Round, Table_Size_Round *)
+
+(* alloc_by: calloc(1, H + s), header at 0;  alloc_stack: char[H + sizeof(struct T)] with size(T) = sizeof(struct T) *)
+Definition plain_block (H s : nat) : nat := H + s.
+Definition plain_body (H : nat) : nat := H.
+
+(* Array: data = nslots * step, element i: header at step * i, body at step * i + H *)
+Definition array_step (H w s : nat) : nat := round_up w s + H.
+Definition array_head (H w s i : nat) : nat := array_step H w s * i.
+Definition array_body (H w s i : nat) : nat := array_step H w s * i + H.
+Definition array_block (H w s nslots : nat) : nat := array_step H w s * nslots.
+
+(* List: node = calloc(1, 2w + H + s): prev, next, header, body *)
+Definition list_block (H w s : nat) : nat := 2 * w + H + s.
+Definition list_head (w : nat) : nat := 2 * w.
+Definition list_body (H w : nat) : nat := 2 * w + H.
+
+(* Tree: node = calloc(1, 3w + H + ks + H + vs): left, right, parent|colour, key header, key, value header, value *)
+Definition tree_block (H w ks vs : nat) : nat := 3 * w + H + ks + H + vs.
+Definition tree_khead (w : nat) : nat := 3 * w.
+Definition tree_kbody (H w : nat) : nat := 3 * w + H.
+Definition tree_vhead (H w ks : nat) : nat := 3 * w + H + ks.
+Definition tree_vbody (H w ks : nat) : nat := 3 * w + H + ks + H.
+
+(* Table: slot i at step * i: hash (8 bytes), key header, key (rounded), value header, value (rounded) *)
+Definition table_step (H w ks vs : nat) : nat := 8 + H + round_up w ks + H + round_up w vs.
+Definition table_khead (H w ks vs i : nat) : nat := table_step H w ks vs * i + 8.
+Definition table_kbody (H w ks vs i : nat) : nat := table_step H w ks vs * i + 8 + H.
+Definition table_vhead (H w ks vs i : nat) : nat := table_step H w ks vs * i + 8 + H + round_up w ks.
+Definition table_vbody (H w ks vs i : nat) : nat := table_step H w ks vs * i + 8 + H + round_up w ks + H.
+Definition table_block (H w ks vs nslots : nat) : nat := table_step H w ks vs * nslots.
